@@ -333,3 +333,15 @@ func PlainRoundTrip(cfg Config, data []byte) string {
 
 // PlainCompress is plainCompress for the triage tools.
 func PlainCompress(cfg Config, data []byte) ([]byte, error) { return plainCompress(cfg, data) }
+
+// PlainDecode decodes with the current Reader outside any simulation; "" = decodes to want.
+func PlainDecode(cfg Config, stream, want []byte) string {
+	ro := plainDecompress(ReaderSpec{Jobs: cfg.DecJobs, Headerless: cfg.Headerless, Cfg: cfg}, stream)
+	if !isEOF(ro.Err) {
+		return "error: " + errStr(ro.Err)
+	}
+	if d := diffAt(ro.Data, want); d >= 0 {
+		return fmt.Sprintf("mismatch at %d", d)
+	}
+	return ""
+}
